@@ -89,6 +89,18 @@ Theorem C04_list_append : forall H src e limit, basic_size e = None -> limit < 2
   exists n', list_append H src (TList e limit) n m = Ok n' /\ Repr H (TList e limit) (VSeq (vs ++ [x])) n'.
 Proof. exact list_append_v. Qed.
 
+(* packed (basic) elements: the write splices the element's bytes into its chunk; the result represents
+   the sequence with that element replaced (no other element, no padding byte disturbed) *)
+Theorem C04_packed_vector_set : forall H src e k s vs n i x m, wf_ty (TVector e k) = true -> basic_size e = Some s ->
+  wf (TVector e k) (VSeq vs) = true -> Repr H (TVector e k) (VSeq vs) n -> (0 <= i < Z.of_N k)%Z -> wf e x = true -> Repr H e x m ->
+  exists n', view_set H src (TVector e k) n i m = Ok n' /\ Repr H (TVector e k) (VSeq (upd (Z.to_nat i) x vs)) n'.
+Proof. exact packed_vector_set. Qed.
+
+Theorem C04_packed_list_set : forall H src e l s vs n i x m, wf_ty (TList e l) = true -> basic_size e = Some s ->
+  wf (TList e l) (VSeq vs) = true -> Repr H (TList e l) (VSeq vs) n -> (0 <= i < Z.of_N (lenN vs))%Z -> wf e x = true -> Repr H e x m ->
+  exists n', view_set H src (TList e l) n i m = Ok n' /\ Repr H (TList e l) (VSeq (upd (Z.to_nat i) x vs)) n'.
+Proof. exact packed_list_set. Qed.
+
 Theorem C04_list_pop : forall H src e limit, basic_size e = None -> limit < 2 ^ 64 -> forall vs n,
   Repr H (TList e limit) (VSeq vs) n -> lenN vs <= limit -> vs <> [] ->
   exists n', list_pop H src (TList e limit) n = Ok n' /\ Repr H (TList e limit) (VSeq (removelast vs)) n'.
@@ -127,6 +139,8 @@ Print Assumptions C04_vector_set.
 Print Assumptions C04_list_set.
 Print Assumptions C04_list_append.
 Print Assumptions C04_list_value_history.
+Print Assumptions C04_packed_vector_set.
+Print Assumptions C04_packed_list_set.
 Print Assumptions C04_list_pop.
 Print Assumptions C04_tree_pop.
 Print Assumptions C04_union_change.
